@@ -67,7 +67,10 @@ fn serialize_object(
     bytes.push(markers::OBJECT_MARKER);
 
     for (name, value) in properties {
-        // TODO: Add check that property name isn't greater than a u16
+        if name.len() > (u16::max_value() as usize) {
+            return Err(Amf0SerializationError::NormalStringTooLong);
+        }
+
         bytes.write_u16::<BigEndian>(name.len() as u16)?;
         bytes.extend(name.as_bytes());
         serialize_value(&value, bytes)?;
